@@ -71,10 +71,12 @@ def _jobs(tier):
     for nm in names:
         jobs.append(Job('ind_%s' % nm, h_causal, {'name': nm, 'n': n, 'variant': 0},
                         {'max_paths': cap, 'max_job_seconds': tcap, 'max_decisions': 3000, 'stop_on_error': True, 'max_path_seconds': 10 if tier == 'quick' else 120, 'prove_timeout_ms': 3000, 'feas_timeout_ms': 2000}))
+    # second parameter set (periods 3/4: the other parity); in the quick tier with a smaller path budget
+    for nm in names:
+        jobs.append(Job('ind_%s_v1' % nm, h_causal, {'name': nm, 'n': n, 'variant': 1},
+                        {'max_paths': 100 if tier == 'quick' else cap, 'max_job_seconds': 10 if tier == 'quick' else tcap, 'max_decisions': 3000, 'stop_on_error': True,
+                         'max_path_seconds': 10 if tier == 'quick' else 120, 'prove_timeout_ms': 3000 if tier == 'quick' else 20000, 'feas_timeout_ms': 2000 if tier == 'quick' else 5000}))
     if tier != 'quick':
-        for nm in names:
-            jobs.append(Job('ind_%s_v1' % nm, h_causal, {'name': nm, 'n': n, 'variant': 1},
-                            {'max_paths': cap, 'max_job_seconds': tcap, 'max_decisions': 3000, 'stop_on_error': True, 'max_path_seconds': 20 if tier == 'quick' else 120, 'prove_timeout_ms': 20000, 'feas_timeout_ms': 5000}))
         for src in ('high', 'volume', 'hl2', 'ohlc4'):
             for nm in ('sma', 'ema', 'wma', 'rsi', 'rma', 'stddev', 'dema', 'zlema', 'roc', 'mom'):
                 jobs.append(Job('ind_%s_src_%s' % (nm, src), h_causal, {'name': nm, 'n': n, 'variant': 0, 'source_type': src},
